@@ -20,6 +20,8 @@ func main() {
 		cmdRun(os.Args[2:])
 	case "check":
 		os.Exit(cmdCheck(os.Args[2:]))
+	case "tmplcheck":
+		os.Exit(cmdTmplCheck())
 	case "templates":
 		for _, eco := range ecosystems {
 			for _, sz := range []string{"s", "m", "l"} {
@@ -124,6 +126,7 @@ func cmdCheck(argv []string) int {
 	verbose := fs.Bool("v", false, "progress output")
 	timeout := fs.Int("timeout", 0, "per-query timeout (ms)")
 	limit := fs.Int("limit", 0, "max configurations")
+	cfgTimeout := fs.Int("cfgtimeout", 0, "per-configuration time budget (s)")
 	fs.Parse(argv[1:])
 	if *tier == "" {
 		*tier = os.Getenv("VERIF_TIER")
@@ -137,5 +140,33 @@ func cmdCheck(argv []string) int {
 			*timeout = 60000
 		}
 	}
-	return runCheck(id, checkOpts{tier: *tier, workers: *workers, strict: *strict, solver: *solver, filter: *filter, verbose: *verbose, timeout: *timeout, limit: *limit})
+	if *cfgTimeout == 0 {
+		*cfgTimeout = 60
+		if *tier == "thorough" {
+			*cfgTimeout = 600
+		}
+	}
+	return runCheck(id, checkOpts{cfgTimeout: *cfgTimeout, tier: *tier, workers: *workers, strict: *strict, solver: *solver, filter: *filter, verbose: *verbose, timeout: *timeout, limit: *limit})
+}
+
+// cmdTmplCheck reports grammar templates that the current parser rejects for every content.
+func cmdTmplCheck() int {
+	registerCheck(&CheckDef{ID: "T00", Title: "template acceptance", Bounds: func(string) string { return "" },
+		Gen: func(tier string) []*Config {
+			var out []*Config
+			for _, eco := range ecosystems {
+				seen := map[string]bool{}
+				for _, sz := range []string{"s", "m", "l"} {
+					for _, t := range versionTemplates(eco, sz) {
+						if seen[t] {
+							continue
+						}
+						seen[t] = true
+						out = append(out, &Config{ID: "T00/" + eco + "/" + t, Pkg: zzhPkg, Func: "VXAccept", Args: []ArgSpec{ArgStr(eco), ArgTmpl(t)}})
+					}
+				}
+			}
+			return out
+		}})
+	return runCheck("T00", checkOpts{tier: "quick", workers: 16, solver: "z3", timeout: 10000, cfgTimeout: 60})
 }
